@@ -602,8 +602,11 @@ def replay(path):
     cd = data["case"]
     subs = [(k, n, r, kd, eval(b)) for (k, n, r, kd, b) in cd.get("subs", [])]
     c = C20Case(eval(cd["recipe"]), cd["version"], cd["mode"] == "app", cd["scratch_slots"], cd["frame_pointers"], subs)
-    model = Model("c20")
-    run_case(pt, model, c)
+    try:
+        model = Model("c20")
+    except RuntimeError:          # the model binary cannot be (re)built right now: replay the implementation alone
+        model = None
+    run_case(pt, model, c, ask_model=(model is not None))
     print(json.dumps(c.describe(), indent=1, default=repr)[:4000])
     bad = (c.build["outcome"] == "crash") or (c.realx is not None and c.realx["outcome"] in ("crash", "timeout"))
     if data.get("kind") == "acceptance":
